@@ -901,11 +901,70 @@ func (g *vc08Gen) history(label string, n, width int) {
 			op := g.valid(width)
 			op.Payload = g.payloadMode()
 			op.fullObs = g.rng.Intn(64) == 0
+			if op.Clk > 0 && op.Clk%PageSize == 0 && op.Clk > g.maxClock {
+				// the first transaction of a new page (new leaf, possibly a new root): fail its commit first, so that
+				// the rollback has to shrink the in-memory trees again; then admit it and restart
+				op.fullObs = true
+				if g.rng.Intn(3) > 0 {
+					f := *op
+					f.Fail = []string{"fn", "ctx"}[g.rng.Intn(2)]
+					g.ops = append(g.ops, &f)
+				}
+				g.ops = append(g.ops, op)
+				g.commit(op)
+				if g.rng.Intn(2) == 0 {
+					g.ops = append(g.ops, &vc08Op{Op: "restart", fullObs: true})
+				}
+				continue
+			}
 			g.ops = append(g.ops, op)
 			g.commit(op)
 		}
 	}
 	g.ops = append(g.ops, &vc08Op{Op: "restart", fullObs: true})
+}
+
+// exhaustive enumerates, for one short valid history, every position at which the write fails at commit (both ways) or
+// the process restarts: one history per (position, fault)
+func (g *vc08Gen) exhaustive(label string, n, width int) {
+	type spec struct {
+		pi  []int
+		clk uint32
+	}
+	// the base history (shapes only)
+	g.clock = map[int]uint32{}
+	g.added, g.top, g.maxClock, g.nextI = nil, nil, 0, 0
+	var base []spec
+	for i := 0; i < n; i++ {
+		op := g.valid(width)
+		base = append(base, spec{op.Pi, op.Clk})
+		g.commit(op)
+	}
+	for pos := 0; pos < n; pos++ {
+		for _, fault := range []string{"fn", "ctx", "restart", "bad-payload"} {
+			g.ops = append(g.ops, &vc08Op{Op: "new", Hist: fmt.Sprintf("%s-pos%d-%s", label, pos, fault)})
+			for i, b := range base {
+				op := &vc08Op{Op: "add", I: i, Pi: b.pi, Clk: b.clk, Payload: "ok", Fail: "none"}
+				if i == pos {
+					switch fault {
+					case "fn", "ctx":
+						f := *op
+						f.Fail = fault
+						g.ops = append(g.ops, &f)
+					case "bad-payload":
+						f := *op
+						f.Payload = "bad"
+						g.ops = append(g.ops, &f)
+					}
+				}
+				g.ops = append(g.ops, op)
+				if i == pos && fault == "restart" {
+					g.ops = append(g.ops, &vc08Op{Op: "restart", fullObs: true})
+				}
+			}
+			g.ops = append(g.ops, &vc08Op{Op: "restart", fullObs: true})
+		}
+	}
 }
 
 // the first write ever fails at commit (empty disk): the reload must leave empty trees behind
@@ -1029,6 +1088,13 @@ func TestVerifC08(t *testing.T) {
 	}
 	g.firstWriteFails("first-write-fails-fn", "fn")
 	g.firstWriteFails("first-write-fails-ctx", "ctx")
+	exh, exhN := 1, 7
+	if thorough {
+		exh, exhN = 8, 14
+	}
+	for i := 0; i < exh; i++ { // every commit-failure / restart position of a short history
+		g.exhaustive(fmt.Sprintf("exhaustive-%d", i), exhN+rng.Intn(3), 1+rng.Intn(3))
+	}
 	for i := 0; i < small; i++ { // short histories dense in rare events, 1..3 transactions per clock value
 		g.rare = 12
 		g.history(fmt.Sprintf("small-%d", i), 20+rng.Intn(120), 1+rng.Intn(3))
